@@ -57,6 +57,8 @@ impl Vm {
     /// When applied to pairs, vectors and strings it recursively compares them.
     /// If applied to any other type, it compares with eqv?.
     pub fn equal(&self, left: &VCell, right: &VCell) -> Result<bool, Error> {
+        #[cfg(marwood_verif)]
+        let _depth_guard = crate::verif_depth::Guard::enter(crate::verif_depth::EQUAL);
         let mut left = left.clone();
         let mut right = right.clone();
         if self.eqv(&left, &right)? {
@@ -83,6 +85,8 @@ impl Vm {
     }
 
     pub fn compare_pair(&self, mut left: VCell, mut right: VCell) -> Result<bool, Error> {
+        #[cfg(marwood_verif)]
+        let _depth_guard = crate::verif_depth::Guard::enter(crate::verif_depth::EQUAL);
         loop {
             if !left.is_pair() || !right.is_pair() {
                 return self.eqv(&left, &right);
@@ -98,6 +102,8 @@ impl Vm {
     }
 
     pub fn compare_vector(&self, left: VCell, right: VCell) -> Result<bool, Error> {
+        #[cfg(marwood_verif)]
+        let _depth_guard = crate::verif_depth::Guard::enter(crate::verif_depth::EQUAL);
         let left = left.as_vector()?;
         let right = right.as_vector()?;
         if left.len() != right.len() {
